@@ -147,19 +147,19 @@ fn tx_join_step(ri: usize) {
 
 /// termination: with an enumerating RNG every retry loop must succeed within its mask size
 fn select_terminates(ri: usize, join: bool, budget: u32) {
-    if join && rt::is_fixed(rt::REGIONS[ri]) {
-        // fixed-plan join channels consume a draw in 3-bit slices
-        let mut mac = any_mac(ri);
-        let mut rng = mc::SliceRng::new(budget);
-        let (_tx, ch) = mac.region.create_tx_config(&mut rng, mac.configuration.data_rate, &Frame::Join);
-        assert!(ch.frequency != 0, "C09: a channel was selected");
-        kani::cover!(rng.draws > 1, "needed more than one draw");
-        return;
-    }
     let mut mac = any_mac(ri);
     let mut rng = mc::EnumRng::new(budget);
     let frame = if join { Frame::Join } else { Frame::Data };
     let (_tx, ch) = mac.region.create_tx_config(&mut rng, mac.configuration.data_rate, &frame);
+    assert!(ch.frequency != 0, "C09: a channel was selected");
+    kani::cover!(rng.draws > 1, "needed more than one draw");
+}
+
+/// same for fixed-plan join channels, which consume a draw in 3-bit slices
+fn join_terminates_slices(ri: usize, budget: u32) {
+    let mut mac = any_mac(ri);
+    let mut rng = mc::SliceRng::new(budget);
+    let (_tx, ch) = mac.region.create_tx_config(&mut rng, mac.configuration.data_rate, &Frame::Join);
     assert!(ch.frequency != 0, "C09: a channel was selected");
     kani::cover!(rng.draws > 1, "needed more than one draw");
 }
@@ -200,4 +200,4 @@ h!(tx_join_legal_us, tx_join_step(0), 84);
 h!(tx_select_terminates_us, select_terminates(0, false, 65), 84);
 //@h id=tx_join_terminates_us props=C04,C09 tier=quick build=dev-us915 cost=200 timeout=2400
 //@bounds US915 join; every reachable round-robin state (used offsets x current offset x start bank x visited banks); enumerating RNG: the 3-bit entropy-slice loop succeeds within 9 draws (90 slices)
-h!(tx_join_terminates_us, select_terminates(0, true, 9), 94);
+h!(tx_join_terminates_us, join_terminates_slices(0, 9), 94);
